@@ -37,6 +37,9 @@ structure Dns where
   aaaa : List Byte → Except Errno (List (List Byte))
   mx   : List Byte → Except Errno (List (Nat × List Byte))
   ptr  : Ip → Except Errno (List Byte)
+  /-- the connector hands TXT bytes on as they are (only NUL, which would end the C string, becomes `?`)
+  instead of sanitising them as lib/libowfatconn.c does: what spf.c must cope with on its own -/
+  rawTxt : Bool := false
 
 /-- what the model can run into apart from a value: a violated caller contract, or the recursion
 fuel of `spflookup` running out (proved impossible: `spf_terminates_bounded`) -/
@@ -68,11 +71,15 @@ end M
 /-- bytes outside 32..126 become `?` (dns_txt_packet2 in lib/libowfatconn.c) -/
 def sanitizeTxt (r : List Byte) : List Byte := r.map fun b => if b.toNat < 32 || b.toNat > 126 then 63 else b
 
-/-- `dnstxt_records()`: error, or the sanitised records (`r = length`) -/
+/-- the TXT records as qsmtpd/spf.c gets them from the connector -/
+def txtView (dns : Dns) (rs : List (List Byte)) : List (List Byte) :=
+  if dns.rawTxt then rs.map (·.map fun b => if b == 0 then 63 else b) else rs.map sanitizeTxt
+
+/-- `dnstxt_records()`: error, or the records (`r = length`) -/
 def dnstxtRecords (dns : Dns) (name : List Byte) : M (Except Errno (List (List Byte))) :=
   M.ask (.txt name) (match dns.txt name with
     | .error e => .error e
-    | .ok rs => .ok (rs.map sanitizeTxt))
+    | .ok rs => .ok (txtView dns rs))
 
 /-- return values of the ask_dns* functions -/
 inductive DnsRes (α : Type) where
